@@ -72,7 +72,7 @@ CASES = [
     ("R-new-import", IMP, "import numpy as np\n", "import cupy as np\n", "reject"),
 ]
 
-VO = ["Model/NpRt.vo", "Model/LabelUtils.vo", "Model/Relabel.vo"]
+VO = ["Model/NpRt.vo", "Model/LabelUtils.vo", "Model/Relabel.vo", "Proofs/NpRtLemmas.vo"]
 
 
 def coqc(cwd, f):
